@@ -1,5 +1,31 @@
-(** C17 -- placeholder while the proofs are built *)
-From RL Require Import Model.Decode.
-Theorem C17_placeholder : m_decode strict_opts [] = Val (Err [IncompleteFlags], []).
-Proof. reflexivity. Qed.
-Print Assumptions C17_placeholder.
+(** C17 -- Bitmask AVPs.  [acc_first]/[acc_second] are the accessors named after
+    the first/second constructor parameter (the pairing by name is written in
+    Model/Ops.v from the public signatures and mirrored by the harness's call
+    table).  Proved for every word, not by enumeration. *)
+From RL Require Import Model.Ops Spec.SpecDecode Spec.SpecEncode Proofs.Bitmask.
+
+Theorem C17_constructor_accessors : forall k x y,
+  acc_first k (bm_new k x y) = x /\ acc_second k (bm_new k x y) = y.
+Proof. exact constructor_accessors. Qed.
+
+Theorem C17_accessor_is_own_bit : forall k w,
+  acc_first k w = N.testbit w (bit_first k) /\ acc_second k w = N.testbit w (bit_second k).
+Proof. exact accessors_own_bit. Qed.
+
+Theorem C17_distinct_bits : forall k, bit_first k <> bit_second k.
+Proof. exact distinct_bits. Qed.
+
+Theorem C17_raw_roundtrip : forall k w, w < 4294967296 ->
+  s_payload (k32_type (bm_k32 k)) (be32 w) = Ok (A32 (bm_k32 k) w) /\
+  s_value (A32 (bm_k32 k) w) = be32 w.
+Proof. exact raw_roundtrip. Qed.
+
+(** the D8 instance of the pinned tree, now correct *)
+Example C17_D8 : acc_second BmBearerCapabilities (bm_new BmBearerCapabilities true false) = false
+              /\ acc_first BmBearerCapabilities (bm_new BmBearerCapabilities true false) = true.
+Proof. split; reflexivity. Qed.
+
+Print Assumptions C17_constructor_accessors.
+Print Assumptions C17_accessor_is_own_bit.
+Print Assumptions C17_distinct_bits.
+Print Assumptions C17_raw_roundtrip.
